@@ -15,8 +15,7 @@ import os, sys, json, glob, tempfile, shutil, hashlib
 import vlib, e2e
 import chunks_lib as cl
 
-THEOREMS = ['C11_chunks']
-THEOREMS_ALL = ['C11_chunks', 'C11_one_chunk', 'C11_write', 'C11_write_prefix_unstamped', 'C11_relay_ok', 'C11_relay_detects',
+THEOREMS = ['C11_chunks', 'C11_one_chunk', 'C11_write', 'C11_write_prefix_unstamped', 'C11_relay_ok', 'C11_relay_detects',
             'C11_relay_ok_only_if', 'C11_end_to_end', 'C11_size_change_detected', 'C11_relay_unfixed_refuted',
             'C11_constants_match_code', 'C11_ladder_matches_code', 'C11_fits']
 
